@@ -438,11 +438,71 @@ struct Meta {
 }
 type Snap = BTreeMap<String, Meta>;
 
+// Files in the log directory that are NOT the appender's (created before the appender, so they
+// are the oldest entries): by the appender's own definition (prefix AND suffix, regular file;
+// without both: a name that parses as a date) it must never count or remove them.
+thread_local! {
+    static FOREIGN: std::cell::RefCell<Vec<(String, bool)>> = const { std::cell::RefCell::new(Vec::new()) };
+    static FOREIGN_LOST: std::cell::RefCell<Vec<String>> = const { std::cell::RefCell::new(Vec::new()) };
+}
+fn plant_foreign(dir: &Path, cfg: &Cfg) -> usize {
+    let mut v: Vec<(String, bool)> = vec![("zz-notes.zzother".into(), false), ("zz-dir".into(), true)];
+    match (&cfg.prefix, &cfg.suffix) {
+        (Some(p), Some(s)) => {
+            v.push((format!("{p}.zz-settings.zzother"), false)); // prefix, not the suffix
+            v.push((format!("{p}.2024-02-29.zzother"), false));
+            v.push((format!("zz-other.2024-02-29.{s}"), false)); // suffix, not the prefix
+            v.push((format!("{p}.zz-dir.{s}"), true)); // both, but a directory
+        }
+        (Some(p), None) => {
+            v.push(("zz-other.2024-02-29".into(), false));
+            v.push((format!("{p}.zz-dir"), true));
+        }
+        (None, Some(s)) => {
+            v.push(("2024-02-29.zzother".into(), false));
+            v.push((format!("zz-dir.{s}"), true));
+        }
+        (None, None) => {
+            v.push(("2024-02-29.zz-not-a-date".into(), false));
+        }
+    }
+    for (n, is_dir) in &v {
+        let p = dir.join(n);
+        if *is_dir {
+            std::fs::create_dir_all(&p).unwrap_or_else(|e| panic!("HARNESS: create {p:?}: {e}"));
+        } else {
+            std::fs::write(&p, b"not a log file of this appender\n").unwrap_or_else(|e| panic!("HARNESS: write {p:?}: {e}"));
+        }
+    }
+    let n = v.len();
+    FOREIGN.with(|f| *f.borrow_mut() = v);
+    FOREIGN_LOST.with(|f| f.borrow_mut().clear());
+    n
+}
+
 fn snap(dir: &Path) -> Snap {
     let mut s = Snap::new();
+    let foreign: Vec<(String, bool)> = FOREIGN.with(|f| f.borrow().clone());
+    for (n, is_dir) in &foreign {
+        let ok = match std::fs::metadata(dir.join(n)) {
+            Ok(md) => md.is_dir() == *is_dir && (*is_dir || md.len() == 32),
+            Err(_) => false,
+        };
+        if !ok {
+            FOREIGN_LOST.with(|f| {
+                let mut f = f.borrow_mut();
+                if !f.contains(n) {
+                    f.push(n.clone());
+                }
+            });
+        }
+    }
     let rd = std::fs::read_dir(dir).unwrap_or_else(|e| panic!("HARNESS: read_dir {dir:?}: {e}"));
     for e in rd {
         let e = e.unwrap_or_else(|e| panic!("HARNESS: dir entry: {e}"));
+        if foreign.iter().any(|(n, _)| e.file_name().to_string_lossy() == n.as_str()) {
+            continue;
+        }
         let md = e.metadata().unwrap_or_else(|e| panic!("HARNESS: metadata: {e}"));
         let bt = md
             .created()
@@ -876,6 +936,8 @@ fn scenario(args: &Args, idx: u64, out: &mut Out, dirno: &mut u64) {
     let dir: PathBuf = root.join(format!("{}-{}", std::process::id(), *dirno));
     let _ = std::fs::remove_dir_all(&dir);
     std::fs::create_dir_all(&dir).unwrap_or_else(|e| panic!("HARNESS: create {dir:?}: {e}"));
+    let nforeign = plant_foreign(&dir, &cfg);
+    out.count("foreign_files_and_directories_planted", nforeign as u64);
 
     out.count("runs", 1);
     out.count(&format!("runs_api_{}", match cfg.api { Api::Threads(_) => "threads".to_string(), a => a.name() }), 1);
@@ -918,6 +980,13 @@ fn scenario(args: &Args, idx: u64, out: &mut Out, dirno: &mut u64) {
             out.violation("panic inside the rolling appender", w);
         }
     }
+    let _ = snap(&dir);
+    let lost: Vec<String> = FOREIGN_LOST.with(|f| f.borrow().clone());
+    if !lost.is_empty() {
+        let w = wit(json!({"removed_or_changed": lost, "note": "these entries were created in the log directory before the appender; by the appender's own definition of its files (prefix AND suffix, regular file) they are not its log files"}));
+        out.violation("the appender removed (or changed) a directory entry that is not one of its log files", w);
+    }
+    FOREIGN.with(|f| f.borrow_mut().clear());
     let reads = CLK_READS.load(SeqCst) - reads0;
     out.count("virtual_clock_reads", reads);
     if reads == 0 {
